@@ -526,6 +526,8 @@ def app(op, *args):
     """Build an application with linearity normalisation."""
     if op in IDENTITY_OPS:
         return P(args[0])
+    if op == "upd":
+        return upd(*args)
     lin = LINEAR.get(op)
     if not lin:
         return P(App(op, tuple(args)))
@@ -552,7 +554,7 @@ def _lin_expand(op, args, positions):
 
 def _structural(op, args):
     # unsq/sq/view of a pure constant stay constants (broadcast scalars)
-    if op in ("unsq", "sq", "view", "expand", "t", "transpose", "roll", "repeat", "flatten_last2"):
+    if op in ("unsq", "sq", "view", "expand", "t", "transpose", "roll", "repeat", "flatten_last2", "index"):
         a = P(args[0])
         if a.is_const():
             return a
@@ -565,6 +567,11 @@ def _structural(op, args):
                 return at.args[k]
         if a.is_const():
             return a
+    if op == "index":
+        a = P(args[0])
+        at = a.single_atom()
+        if at is not None and isinstance(at, App) and at.op == "upd" and at.args[1] == args[1]:
+            return at.args[2]  # reading back the location just written
     if op == "t":
         a = P(args[0])
         at = a.single_atom()
@@ -576,6 +583,15 @@ def _structural(op, args):
         if at is not None and isinstance(at, App) and at.op == "transpose" and at.args[1:] == tuple(args[1:]):
             return at.args[0]
     return P(App(op, tuple(args)))
+
+
+def upd(base, spec, val):
+    """Functional update base[spec] := val; a second write to the same location replaces the first."""
+    base = P(base)
+    at = base.single_atom()
+    if at is not None and isinstance(at, App) and at.op == "upd" and at.args[1] == spec:
+        base = at.args[0]
+    return P(App("upd", (base, spec, P(val))))
 
 
 def stack0(*comps):
